@@ -1,5 +1,6 @@
 import MicroHttp.Props.C12
 import MicroHttp.Props.C12Pop
+import MicroHttp.Props.Tables
 #print axioms MicroHttp.C12.first_completer
 #print axioms MicroHttp.C12.eof_keeps
 #print axioms MicroHttp.C12.failed_read_keeps
@@ -7,3 +8,4 @@ import MicroHttp.Props.C12Pop
 #print axioms MicroHttp.C12.pop_moves
 #print axioms MicroHttp.C12.read_ignores_queue
 #print axioms MicroHttp.C12.pop_timing_irrelevant
+#print axioms MicroHttp.Tables.no_shared_state
